@@ -1,8 +1,215 @@
 package main
 
-// tryReplay builds, where a harness is known for the obligation's function, a Go test from the
-// solver model, injects it with `go test -overlay` and runs it against the real code.
-// Returns (reproduced, transcript). An empty transcript means no harness exists.
+import (
+	"context"
+	"fmt"
+	"os"
+	"os/exec"
+	"path/filepath"
+	"regexp"
+	"strconv"
+	"strings"
+	"time"
+)
+
+// Replay of solver counterexamples against the real code.
+//
+// For functions whose inputs are scalars and strings (or reachable through a small known harness) the values of
+// the inputs are read from the solver with (get-value ...) and a Go test is generated, injected into the package
+// with `go test -overlay` (nothing is written to /repo) and run. For safe.* obligations the oracle is "the real
+// function panics with a runtime error"; for a few clause obligations a small executable restatement of the
+// clause is the oracle. A replay that does not reproduce never clears the violation.
+
+type replayInput struct {
+	name string // Go identifier in the template
+	term string // SMT term to evaluate in the model
+	kind string // string | int | bool
+}
+
+type replaySpec struct {
+	pkgDir string // directory of the package relative to the repo
+	pkg    string // package name
+	inputs []replayInput
+	// body of the test: uses the input identifiers; must call t.Fatalf on reproduction of a *post* violation;
+	// runtime panics are caught by the wrapper and count as reproduction of safe.* obligations
+	body    string
+	imports []string
+}
+
+var replaySpecs = map[string]replaySpec{
+	"mux.Hosts.Match": {pkgDir: ".", pkg: "mux", imports: []string{"net/http/httptest", "github.com/issue9/mux/v9/types"},
+		inputs: []replayInput{{"host", "(select |H0:F:http.Request.Host| |p:r|)", "string"}},
+		body: `hs := NewHosts(false, "example.com", "{sub}.example.org")
+	r := httptest.NewRequest("GET", "http://x/", nil)
+	r.Host = host
+	hs.Match(r, types.NewContext())`},
+	"mux.validOptionalPort": {pkgDir: ".", pkg: "mux",
+		inputs: []replayInput{{"port", "|p:port|", "string"}},
+		body: `got := validOptionalPort(port)
+	want := port == ""
+	if !want && port[0] == ':' {
+		want = true
+		for i := 1; i < len(port); i++ {
+			if port[i] < '0' || port[i] > '9' {
+				want = false
+			}
+		}
+	}
+	if got != want {
+		t.Fatalf("validOptionalPort(%q) = %v, specification says %v", port, got, want)
+	}`},
+	"syntax.splitString": {pkgDir: "internal/syntax", pkg: "syntax",
+		inputs: []replayInput{{"str", "|p:str|", "string"}},
+		body: `ss := splitString(str)
+	joined := ""
+	for i, s := range ss {
+		if s == "" {
+			t.Fatalf("splitString(%q) has an empty piece %d: %q", str, i, ss)
+		}
+		joined += s
+	}
+	if joined != str {
+		t.Fatalf("splitString(%q) = %q does not concatenate to its input", str, ss)
+	}`},
+	"syntax.longestPrefix": {pkgDir: "internal/syntax", pkg: "syntax",
+		inputs: []replayInput{{"s1", "|p:s1|", "string"}, {"s2", "|p:s2|", "string"}},
+		body: `l := longestPrefix(s1, s2)
+	if l > len(s1) || l > len(s2) || (l > 0 && s1[:l] != s2[:l]) {
+		t.Fatalf("longestPrefix(%q, %q) = %d is not a common prefix length", s1, s2, l)
+	}`},
+	"syntax.Interceptors.NewSegment": {pkgDir: "internal/syntax", pkg: "syntax",
+		inputs: []replayInput{{"val", "|p:val|", "string"}},
+		body: `i := NewInterceptors()
+	i.Add(MatchDigit, "digit")
+	seg, err := i.NewSegment(val)
+	if err == nil && seg.Value != val {
+		t.Fatalf("NewSegment(%q).Value = %q", val, seg.Value)
+	}`},
+	"syntax.Interceptors.Split": {pkgDir: "internal/syntax", pkg: "syntax",
+		inputs: []replayInput{{"str", "|p:str|", "string"}},
+		body: `i := NewInterceptors()
+	i.Add(MatchDigit, "digit")
+	i.Split(str)`},
+	"mux.NewPathVersion": {pkgDir: ".", pkg: "mux",
+		inputs: []replayInput{{"v0", "(elem_Slice_String |H0:S:string| |p:version| 0)", "string"}},
+		body:   `NewPathVersion("ver", v0)`},
+	"mux.CheckSyntax": {pkgDir: ".", pkg: "mux",
+		inputs: []replayInput{{"pattern", "|p:pattern|", "string"}},
+		body:   `CheckSyntax(pattern)`},
+}
+
+var smtStrRe = regexp.MustCompile(`\\u\{([0-9a-fA-F]+)\}`)
+
+func decodeSMTString(s string) string {
+	s = strings.TrimSpace(s)
+	if len(s) >= 2 && s[0] == '"' {
+		s = s[1 : len(s)-1]
+	}
+	s = strings.ReplaceAll(s, `""`, `"`)
+	return smtStrRe.ReplaceAllStringFunc(s, func(m string) string {
+		v, _ := strconv.ParseInt(smtStrRe.FindStringSubmatch(m)[1], 16, 32)
+		if v < 256 {
+			return string([]byte{byte(v)})
+		}
+		return string(rune(v))
+	})
+}
+
+// tryReplay: see file comment. Returns (reproduced, transcript).
 func tryReplay(w *World, o *Obligation, repo, replayPath string) (bool, string) {
-	return false, ""
+	spec, ok := replaySpecs[o.Fn]
+	if !ok || (o.Status != "failed" && o.ModelQuery == "") {
+		return false, ""
+	}
+	// ask the solver for the input values
+	q := w.query(o, false)
+	if o.Status != "failed" {
+		q = o.ModelQuery + "\n(check-sat)\n"
+	}
+	var terms []string
+	for _, in := range spec.inputs {
+		terms = append(terms, in.term)
+	}
+	q += fmt.Sprintf("(get-value (%s))\n", strings.Join(terms, " "))
+	dir, _ := os.MkdirTemp("", "govc-replay-")
+	defer os.RemoveAll(dir)
+	qf := filepath.Join(dir, "q.smt2")
+	os.WriteFile(qf, []byte(q), 0o644)
+	solver := o.Solver
+	if solver == "" {
+		solver = "z3-new"
+	}
+	var out string
+	for _, s := range solvers {
+		if s.name == strings.TrimSuffix(solver, "/uf") {
+			_, out, _ = runSolver(context.Background(), s, qf, 20)
+		}
+	}
+	vals := parseGetValue(out, len(spec.inputs))
+	if vals == nil {
+		return false, "could not read input values from the solver output:\n" + firstLines(out, 6)
+	}
+	var sb strings.Builder
+	fmt.Fprintf(&sb, "package %s\n\nimport (\n\t\"testing\"\n", spec.pkg)
+	for _, im := range spec.imports {
+		fmt.Fprintf(&sb, "\t%q\n", im)
+	}
+	fmt.Fprintf(&sb, ")\n\n// generated by govc from the counterexample of obligation %s\nfunc TestGovcReplay(t *testing.T) {\n", o.Name)
+	var desc []string
+	for i, in := range spec.inputs {
+		switch in.kind {
+		case "string":
+			v := decodeSMTString(vals[i])
+			if len(v) > 1<<16 {
+				return false, fmt.Sprintf("model value of %s is %d bytes long; not replayed", in.name, len(v))
+			}
+			fmt.Fprintf(&sb, "\t%s := %q\n", in.name, v)
+			desc = append(desc, fmt.Sprintf("%s=%q", in.name, v))
+		default:
+			fmt.Fprintf(&sb, "\t%s := %s\n", in.name, strings.Trim(vals[i], "() "))
+			desc = append(desc, fmt.Sprintf("%s=%s", in.name, vals[i]))
+		}
+	}
+	sb.WriteString("\tdefer func() {\n\t\tif e := recover(); e != nil {\n\t\t\tt.Fatalf(\"runtime panic: %v\", e)\n\t\t}\n\t}()\n\t")
+	sb.WriteString(spec.body)
+	sb.WriteString("\n}\n")
+	testFile := strings.TrimSuffix(replayPath, ".txt") + "_replay_test.go"
+	os.WriteFile(testFile, []byte(sb.String()), 0o644)
+	target := filepath.Join(repo, spec.pkgDir, "zz_govc_replay_test.go")
+	ov := filepath.Join(dir, "ov.json")
+	os.WriteFile(ov, []byte(fmt.Sprintf(`{"Replace":{%q:%q}}`, target, testFile)), 0o644)
+	ctx, cancel := context.WithTimeout(context.Background(), 90*time.Second)
+	defer cancel()
+	cmd := exec.CommandContext(ctx, "sh", "-c", fmt.Sprintf("ulimit -v 4000000; cd %q && go test -overlay %q -vet=off -count=1 -timeout 60s -run TestGovcReplay .", filepath.Join(repo, spec.pkgDir), ov))
+	cmd.Env = append(os.Environ(), "GOFLAGS=-mod=mod", "GOPROXY=off", "GOSUMDB=off", "GOTOOLCHAIN=local")
+	b, _ := cmd.CombinedOutput()
+	res := string(b)
+	reproduced := strings.Contains(res, "--- FAIL: TestGovcReplay")
+	tr := fmt.Sprintf("inputs from the model: %s\ngenerated test: %s\nrun: go test -overlay ... -run TestGovcReplay (in %s)\n%s", strings.Join(desc, ", "), testFile, spec.pkgDir, firstLines(res, 12))
+	if reproduced {
+		tr += "\n=> the counterexample REPRODUCES on the real code"
+	} else {
+		tr += "\n=> the real code did not fail on this input (the model may rely on unconstrained callee results)"
+	}
+	return reproduced, tr
+}
+
+// parseGetValue extracts n values from a "(get-value ...)" answer: ((term value) (term value) ...)
+func parseGetValue(out string, n int) []string {
+	i := strings.Index(out, "((")
+	if i < 0 {
+		return nil
+	}
+	forms := parseSx(out[i:])
+	if len(forms) == 0 || !forms[0].isL || len(forms[0].list) < n {
+		return nil
+	}
+	var vals []string
+	for _, pair := range forms[0].list[:n] {
+		if !pair.isL || len(pair.list) != 2 {
+			return nil
+		}
+		vals = append(vals, pair.list[1].String())
+	}
+	return vals
 }
